@@ -310,6 +310,29 @@ func c07Run(e *core.Env) {
 	}
 	e.SetBound("token_sequence_length", m)
 	c07LongFiles(e, try)
+	// (e) the parser as the loader drives it: files that include files that include files
+	// (w = 3, 10, 40 first-level includes); parsing must come to an end for every file
+	if e.Take() {
+		drv := e.Driver()
+		for _, w := range []int{3, 10, 40} {
+			files := map[string]string{}
+			var rb strings.Builder
+			for i := 0; i < w; i++ {
+				fmt.Fprintf(&rb, "include \"m%02d.knut\"\n", i)
+				files[fmt.Sprintf("m%02d.knut", i)] = fmt.Sprintf("# mid\n2020-01-02 price USD 0.9%d CHF\ninclude \"l%02d.knut\"\n", i%10, i)
+				files[fmt.Sprintf("l%02d.knut", i)] = "2020-01-03 price EUR 1.1 CHF\n"
+			}
+			files["root.knut"] = rb.String()
+			drv.Files(files)
+			o := drv.Run(nil, "check", "root.knut")
+			e.Count("evaluations")
+			if ab := o.Abnormal(); ab != "" {
+				e.Violation("C07:parse-does-not-return:include-tree", fmt.Sprintf("a valid tree of %d files: %s", 2*w+1, ab), c07Case{Text: files["root.knut"]}, nil)
+			} else if o.Exit != 0 {
+				e.Violation("C07:valid-include-tree-rejected", o.Stderr, c07Case{Text: files["root.knut"]}, nil)
+			}
+		}
+	}
 	// (c) prefixes and single-token substitutions of a corpus of valid files
 	for _, file := range c07Corpus() {
 		if _, err, _ := parseText(file); err != nil {
